@@ -230,7 +230,7 @@ ADDENDA = {
     "C14": " Also: the value returned for a parameterised gate is the table function's result for every angle (no special-cased angle).",
     "C16": " Also: has_signature is an equality of the whole signature (no is_some / len / prefix comparisons of a component).",
     "C28": " Also: exactly JUMP, JUMP-WHEN, JUMP-UNLESS and HALT (and LABEL, which starts the next one) close a block. The offset increment has a literal + 1 exactly at the sites that close a block on a terminator instruction.",
-    "C22": " Also: the BlockStart edge of a classical instruction is decided by whether a memory edge was actually drawn into it (flag cleared under the self-edge guard, or computed from that comparison).",
+    "C22": " Also: the BlockStart edge of a classical instruction is decided by whether a memory edge was actually drawn into it (flag cleared under the self-edge guard, or computed from that comparison). The self-edge guard is polarity-aware: memory edges are drawn on the side where the dependency is a different node.",
     "C02": " Also: a present optional field is printed whatever it contains (no Some-discarding adaptor, emission controlled only by the Option being Some); a writer that separates elements with commas has a parser accepting COMMA.",
     "C03": " Also: whole real parts written as bare digit strings (trim_floats below 10^break) fit the lexer's integer token width; the Prefix arm never prints its operand bare and the Infix arm prints both operands through the grouping printer; the identifier parser tries `name[index]` before the keyword table while MemoryReference always prints its brackets.",
     "C04": " Also: the literal rule shared with C02; positions printed with format_complex need a parser that accepts a sign and a sum (CALL immediates: sign repaired, two-part values a known finding); an expression printed directly after a qubit list is grouped by the writer for every expression kind whose text starts with a token the qubit parser accepts (DELAY, repaired twice); a to_quil()/to_quil_or_debug() call on a value of generic type inside a flag-taking helper counts as one on a placeholder-carrying value.",
